@@ -82,7 +82,7 @@ def coarse(x):
     if isinstance(x, dict) and 'v' in x and 'kids' in x:
         return x['v'] if x['v'] in ('-', 'absent', 'unloadable', 'lost', 'nostate', 'nofile', 'blobrec', 'badpos') else 'a-state'
     if isinstance(x, (dict, set, frozenset, tuple, list)):
-        return '%s/%d' % ('map' if isinstance(x, dict) else 'seq' if isinstance(x, (tuple, list)) else 'set', len(x))
+        return 'map' if isinstance(x, dict) else 'seq' if isinstance(x, (tuple, list)) else 'set'
     return type(x).__name__
 
 
